@@ -1320,12 +1320,12 @@ func brRebindScenario(t *testing.T, r *Rec, rounds, nops int) {
 		input := func(op string) map[string]interface{} {
 			return map[string]interface{}{"scenario": "denoms move between token contracts while transfers are pending", "history": append(append([]string{}, hist...), op)}
 		}
-		// VERIF_C01_REBIND_REIMPORT=1 adds the genesis export / import of the bridge module to these histories.  Off by
-		// default: on the pinned tree the export drops the reverse entry of every contract a denom has left behind
-		// (ExportGenesis writes one entry per denom), so a transfer still pending under such a contract can be neither
-		// refunded nor burned afterwards - reported to the lead as a defect of the unchanged tree, see Props/C01.md.
-		withReimport := os.Getenv("VERIF_C01_REBIND_REIMPORT") == "1"
-		regLines := true // the registry model has no export / import: after one, only the monitors go on
+		// these histories include the genesis export / import of the bridge module (VERIF_C01_REBIND_REIMPORT=0 leaves it
+		// out).  On the pinned tree the export dropped the reverse entry of every contract a denom has left behind
+		// (ExportGenesis wrote one entry per denom), so a transfer still pending under such a contract could be neither
+		// refunded nor burned afterwards - genuine defect, repaired in the repository, see Props/C01.md.
+		withReimport := os.Getenv("VERIF_C01_REBIND_REIMPORT") != "0"
+		regLines := true
 		emit := func(line, out string) {
 			if regLines {
 				r.Op(line, out)
@@ -1710,7 +1710,8 @@ func brRebindScenario(t *testing.T, r *Rec, rounds, nops int) {
 					skykeeper.InitGenesis(e.ctx, e.raw, gs)
 					return true
 				})
-				regLines = false
+				// the export keeps both tables (current relation of every denom, entry of every contract): the registry
+				// model goes on unchanged and its lines are compared after an export / import as before it
 			case x < 68: // the admin of a token factory denom hands the denom over
 				d := 1 + r.Rng.Intn(2)
 				u := 1 + r.Rng.Intn(nUsers)
